@@ -12,6 +12,7 @@ CONSTANTS
   Modes = {"receptor", "dns"}
   StreamSrcs <- StreamSrcsQuick
   MaxTick = 1
+  KF_LookupMutatesStored = TRUE
   KF_TimeFrozenAtCreation = TRUE
   KF_DigestCachedAcrossCalls = TRUE
   KF_ColonSplit = TRUE
@@ -20,3 +21,4 @@ INVARIANTS
   CodeWithinProp
   HistoryIndependent
   ValidityJudgedAtHandshake
+  LookupsIndependent
